@@ -261,6 +261,13 @@ Proof.
     destruct r; cbn [geval seval cap_of g_grants s_grants t_grants]; btauto.
 Qed.
 
+(* a performed request is granted: the operation's own rule is always among the rules consulted *)
+Lemma op_allowed_sound p r sid tid : op_allowed p r sid tid = true -> grants p r sid tid = true.
+Proof.
+  unfold op_allowed. intros H. apply allowed_sound. rewrite forallb_forall in H. apply H.
+  destruct r; cbn [rules_of_op via_topic In]; auto.
+Qed.
+
 (* ---------- root ---------- *)
 Lemma root_allowed r sid tid : allowed (Some root_perms) r sid tid = true.
 Proof. destruct r; reflexivity. Qed.
